@@ -13,6 +13,9 @@ import vlib
 WORK = os.path.join(vlib.WORK_DIR, "rustgen")
 CACHE = os.path.join(WORK, "cache")
 MODPATH = "b::h::"
+# must stay LAST on the command line: everything after --cbmc-args goes to CBMC.  Leaks are decided by CBMC itself
+# ("dynamically allocated memory never freed" at harness exit), not by allocator stubs (see assemble.py).
+LEAK_ARGS = ["--cbmc-args", "--memory-leak-check"]
 
 
 def kani_version():
@@ -123,6 +126,7 @@ def run_harnesses(crate_dir, names, slot, jobs, timeout, harness_timeout, log, e
     for n in names:
         cmd += ["--harness", MODPATH + n]
     cmd += list(extra)
+    cmd += LEAK_ARGS
     rc, txt, dt = vlib.run_cmd(cmd, cwd=crate_dir, timeout=timeout, mem_gb=12, log=log,
                                env={"CARGO_NET_OFFLINE": "true", "CARGO_BUILD_JOBS": str(max(2, jobs))})
     res = parse(txt)
@@ -141,7 +145,8 @@ def playback(crate_dir, lib_text, name, slot, timeout, log_prefix, descs=()):
     -> {"test": text, "values": [[bytes]], "check": desc, "native": "reproduced: <msg>" | "passes natively" | "diverged: ..." | "not run: ..."}"""
     out = {"test": None, "values": None, "native": "not run", "check": None}
     cmd = ["cargo", "kani", "--target-dir", os.path.join(WORK, "slot%d" % slot), "--output-format", "terse",
-           "-Z", "stubbing", "-Z", "concrete-playback", "--concrete-playback=print", "--exact", "--harness", MODPATH + name]
+           "-Z", "stubbing", "-Z", "unstable-options", "-Z", "concrete-playback", "--concrete-playback=print", "--exact",
+           "--harness", MODPATH + name] + LEAK_ARGS
     # kani-driver itself parses the JSON trace here: 12 GB of address space is not enough for it (measured), hence 24
     rc, txt, dt = vlib.run_cmd(cmd, cwd=crate_dir, timeout=timeout, mem_gb=24, log=log_prefix + "_print.log",
                                env={"CARGO_NET_OFFLINE": "true"})
